@@ -37,6 +37,7 @@ VARIABLES l,     \* cursor
 tvars == <<vars, l, ms, cur, ph>>
 
 TraceInit == /\ scen = [ty |-> "", ms |-> <<>>] /\ stk = Idle /\ held = [t \in Threads |-> {}]
+             /\ secs = [t \in Threads |-> 0]
              /\ l = 1 /\ HwmInit /\ ms = <<>> /\ cur = 0 /\ ph = "closed"
 
 e == Trace[l]
